@@ -1008,15 +1008,22 @@ Proof.
   match goal with |- no_ub (if ?c then _ else _) => destruct c end; [apply IH|nub].
 Qed.
 
-Lemma check_halfface_ordering_no_ub faces hfs : Forall (hok (len faces)) hfs -> hfs <> [] ->
-  no_ub (check_halfface_ordering faces hfs).
+Lemma check_halfface_ordering_no_ub edges faces hfs : Forall (hok (len faces)) hfs -> hfs <> [] ->
+  no_ub (check_halfface_ordering edges faces hfs).
 Proof.
   intros H Hne. unfold check_halfface_ordering.
   apply no_ub_bind; [apply hf_halfedges_no_ub; apply hok_nthd; assumption|]. intros ht _.
   apply no_ub_bind; [apply hf_halfedges_no_ub; apply hok_nthd; assumption|]. intros hb _.
   apply no_ub_bind; [apply order_side_no_ub; exact H|]. intros a _.
   destruct a as [o1|]; [|nub]. destruct (o1 =? -1); [nub|].
-  apply no_ub_bind; [apply order_side_no_ub; exact H|]. intros b _. destruct b; nub.
+  apply no_ub_bind; [apply order_side_no_ub; exact H|]. intros b _. destruct b as [o2|]; [|nub]. destruct (o2 =? -1); nub.
+Qed.
+
+Lemma cell_from_vertices_no_ub edges faces hfs : Forall (hok (len faces)) hfs -> no_ub (cell_from_vertices edges faces hfs).
+Proof.
+  induction 1 as [|h t Hh Ht IH]; simpl; [nub|].
+  apply no_ub_bind; [apply hf_halfedges_no_ub; exact Hh|]. intros a _.
+  apply no_ub_bind; [exact IH|]. intros b _. nub.
 Qed.
 
 Lemma upd_nth_forall (P : Z -> Prop) i x l : P x -> Forall P l -> Forall P (upd_nth i x l).
@@ -1116,17 +1123,21 @@ Proof.
   destruct Hin as [->|Hin]; [exact Ha|apply IH; assumption].
 Qed.
 
-Lemma mesh_add_cell_no_ub o faces hfs : Forall (hok (len faces)) hfs -> no_ub (mesh_add_cell o faces hfs).
+Lemma mesh_add_cell_no_ub o edges faces hfs : Forall (hok (len faces)) hfs -> no_ub (mesh_add_cell o edges faces hfs).
 Proof.
   intros H. unfold mesh_add_cell. destruct (o_mesh o).
   - apply base_add_cell_no_ub; exact H.
   - destruct (len hfs =? 4); [|nub]. apply no_ub_bind; [apply all_valence_no_ub; exact H|]. intros ok _.
-    destruct ok; [apply base_add_cell_no_ub; exact H|nub].
+    destruct ok; cbn [negb]; [|nub]. destruct (o_check o); cbn [negb]; [|apply base_add_cell_no_ub; exact H].
+    apply no_ub_bind; [apply cell_from_vertices_no_ub; exact H|]. intros vs _.
+    destruct (negb (count_distinct vs =? 4)); [nub|]. apply base_add_cell_no_ub; exact H.
   - destruct (len hfs =? 6) eqn:E6; [|nub]. apply Z.eqb_eq in E6.
     assert (Hne : hfs <> []) by (intros ->; rewrite len_nil in E6; lia).
     apply no_ub_bind; [apply all_valence_no_ub; exact H|]. intros ok Hok.
     destruct ok; cbn [negb]; [|nub].
     destruct (o_check o); cbn [negb]; [|apply base_add_cell_no_ub; exact H].
+    apply no_ub_bind; [apply cell_from_vertices_no_ub; exact H|]. intros vs _.
+    destruct (negb (count_distinct vs =? 8)); [nub|].
     apply no_ub_bind; [apply check_halfface_ordering_no_ub; assumption|]. intros ord _.
     destruct ord; [apply base_add_cell_no_ub; exact H|].
     assert (Htop : forall hes, hf_halfedges faces (nthd hfs 0) = Ret hes -> hes <> []).
@@ -1248,7 +1259,7 @@ Proof.
 Qed.
 
 Lemma hok_handles_cells o st off : inv_topo st ->
-  (forall hs a, Forall (hok (len (r_faces st))) hs -> no_ub ((fun hs (_ : list (list Z)) => mesh_add_cell o (r_faces st) hs) hs a)) /\
+  (forall hs a, Forall (hok (len (r_faces st))) hs -> no_ub ((fun hs (_ : list (list Z)) => mesh_add_cell o (r_edges st) (r_faces st) hs) hs a)) /\
   (forall enc v d1 hs d2, read_n_ints enc v (mk_handle off (2 * r_nfr st)) d1 = Ret (hs, d2) -> Forall (hok (len (r_faces st))) hs).
 Proof.
   intros [I1 I2]. split.
@@ -1654,12 +1665,14 @@ Proof.
   repeat match type of H with (if ?c then _ else _) = _ => destruct c end; inversion H; reflexivity.
 Qed.
 
-Lemma mesh_add_cell_stored o faces hs s : plain_cells o -> mesh_add_cell o faces hs = Ret (Some s) -> s = hs.
+Lemma mesh_add_cell_stored o edges faces hs s : plain_cells o -> mesh_add_cell o edges faces hs = Ret (Some s) -> s = hs.
 Proof.
   unfold plain_cells, mesh_add_cell. intros Hp H. destruct (o_mesh o).
   - eapply base_add_cell_stored; eassumption.
   - destruct (len hs =? 4); [|discriminate]. apply bind_ret_inv in H. destruct H as [ok [_ H]].
-    destruct ok; [eapply base_add_cell_stored; eassumption|discriminate].
+    destruct ok; cbn [negb] in H; [|discriminate]. destruct (o_check o); cbn [negb] in H; [|eapply base_add_cell_stored; eassumption].
+    apply bind_ret_inv in H. destruct H as [vs [_ H]]. destruct (negb (count_distinct vs =? 4)); [discriminate|].
+    eapply base_add_cell_stored; eassumption.
   - destruct (len hs =? 6); [|discriminate]. apply bind_ret_inv in H. destruct H as [ok [_ H]].
     destruct ok; cbn [negb] in H; [|discriminate]. rewrite Hp in H. cbn [negb] in H.
     eapply base_add_cell_stored; eassumption.
@@ -1668,17 +1681,20 @@ Qed.
 (* add_cell stores handles that designate existing halffaces whenever it is given such handles - in EVERY configuration: the
    re-ordering path of the hexahedral class can put InvalidHalfFaceHandle into a slot, but such a list is refused (is_valid()
    of every slot, HexahedralMeshTopologyKernel::add_cell) *)
-Lemma mesh_add_cell_valid o faces hs s : Forall (in_lim (2 * len faces)) hs ->
-  mesh_add_cell o faces hs = Ret (Some s) -> Forall (in_lim (2 * len faces)) s.
+Lemma mesh_add_cell_valid o edges faces hs s : Forall (in_lim (2 * len faces)) hs ->
+  mesh_add_cell o edges faces hs = Ret (Some s) -> Forall (in_lim (2 * len faces)) s.
 Proof.
   intros H. unfold mesh_add_cell. destruct (o_mesh o).
   - intros E. apply base_add_cell_stored in E. subst. exact H.
   - destruct (len hs =? 4); [|discriminate]. intros E. apply bind_ret_inv in E. destruct E as [ok [_ E]].
-    destruct ok; [|discriminate]. apply base_add_cell_stored in E. subst. exact H.
+    destruct ok; cbn [negb] in E; [|discriminate]. destruct (o_check o); cbn [negb] in E; [|apply base_add_cell_stored in E; subst; exact H].
+    apply bind_ret_inv in E. destruct E as [vs [_ E]]. destruct (negb (count_distinct vs =? 4)); [discriminate|].
+    apply base_add_cell_stored in E. subst. exact H.
   - destruct (len hs =? 6) eqn:E6; [|discriminate]. apply Z.eqb_eq in E6.
     assert (Hne : hs <> []) by (intros ->; rewrite len_nil in E6; lia).
     intros E. apply bind_ret_inv in E. destruct E as [ok [Hok E]]. destruct ok; cbn [negb] in E; [|discriminate].
     destruct (o_check o); cbn [negb] in E; [|apply base_add_cell_stored in E; subst; exact H].
+    apply bind_ret_inv in E. destruct E as [vs [_ E]]. destruct (negb (count_distinct vs =? 8)); [discriminate|].
     apply bind_ret_inv in E. destruct E as [ord [_ E]]. destruct ord; [apply base_add_cell_stored in E; subst; exact H|].
     apply bind_ret_inv in E. destruct E as [r [Hr E]]. destruct r as [hfs'|]; [|discriminate].
     destruct (existsb (fun x => x <? 0) hfs') eqn:Ev; [discriminate|].
